@@ -97,10 +97,17 @@ theorem eval_frame (n : Nat) :
               exact g3.sub_right (fun a ha => nomatch ha)
             | some args =>
               rw [evalChain_finish hL hl hp ha] at h
-              have hce := gA.cells_eq (g2.own.rng _ (md_mem_cellsState _ (prep w1 pred).2)).2
-              rw [← hce] at g3
-              have := g3.step (finish_stage (key := keyOf absolute acts) (pvol := (w1.heap.metaAt pred.md).volatile)
-                (name := act.name) g3.inv g3.own)
+              have hce := gA.cells_eq
+                (g2.own.rng _ (List.mem_append.2 (Or.inr (md_mem_cellsState _ (prep w1 pred).2)))).2
+              have g3' : Good w w3 (cmdFoot w3.heap (prep w1 pred).2 (w1.heap.metaAt pred.md).vars args) :=
+                g3.sub_right (fun a ha => by
+                  rcases mem_cmdFoot.1 ha with h1 | ⟨v, hv, h1⟩ | h1
+                  · rw [hce] at h1
+                    exact List.mem_append.2 (Or.inl (List.mem_append.2 (Or.inr h1)))
+                  · exact List.mem_append.2 (Or.inr (by simp only [argCells, List.mem_flatMap]; exact ⟨v, hv, h1⟩))
+                  · exact List.mem_append.2 (Or.inl (List.mem_append.2 (Or.inl (by simp [mem_cellsState, h1])))))
+              have := g3'.step (finish_stage (key := keyOf absolute acts) (pvol := (w1.heap.metaAt pred.md).volatile)
+                (name := act.name) g3'.inv g3'.own)
               rw [h] at this
               exact this
     · -- evalArgs
